@@ -97,6 +97,13 @@ static CO_ERR COTPdoIdWrite(struct CO_OBJ_T *obj, struct CO_NODE_T *node, void *
         tpdo = node->TPdo;
         num  = pcomidx & COT_OBJECT_NUM;
     }
+    /* PDOs beyond the configured number exist in the dictionary only */
+    if ((rpdo != 0) && (num >= CO_RPDO_N)) {
+        rpdo = 0;
+    }
+    if ((tpdo != 0) && (num >= CO_TPDO_N)) {
+        tpdo = 0;
+    }
 
     (void)uint32->Read(obj, node, &oid, sizeof(oid));
     if ((oid & CO_TPDO_COBID_OFF) == 0) {
